@@ -29,7 +29,10 @@ class InvalidEffect(Monitor):
         ctx.scratch["visits"] = n + 1
         if n % ad.fork_every:
             return
-        ns, nts = ctx.sys.fork(rec.jstate, np.asarray(actions))
+        try:
+            ns, nts = ctx.sys.fork(rec.jstate, np.asarray(actions))
+        except Exception as e:  # noqa: BLE001  (every action is inside the action spec: step must answer it)
+            ctx.fail(self.name, "forked_step_raised:" + type(e).__name__, f"t={rec.t}: vmap(step) over the illegal actions raised {type(e).__name__}: {str(e)[:200]}")
         ctx.stats.inc(ctx.stats.faults, "ILLEGAL_ENUM", len(actions))
         ctx.stats.probe("illegal_set_enumerated_completely" if complete else "illegal_set_sampled")
         import jax
